@@ -418,9 +418,9 @@ def one_curve(rec, tap, rng, cid):
 
 
 def known_witness(rec):
-    """Frozen input of the known finding D18 (recorded arrays of a generated
-    well-formed lagged curve, vm/data): run on every check so that the
-    finding is reported - or seen to be gone - whatever the seed."""
+    """Frozen input of the defect D18 (recorded arrays of a generated
+    well-formed lagged curve, vm/data; repaired since): run on every check
+    so that the failure is reported whatever the seed if it ever returns."""
     import json
     import pathlib
     here = pathlib.Path(__file__).resolve().parent.parent / "data"
@@ -434,7 +434,7 @@ def known_witness(rec):
     case = {"id": [0, -1], "curve": "frozen witness vm/data/"
             "c07_known_smooth_max_iter.npz", "pipeline": info["steps"],
             "pipeline_options": info["options"]}
-    rec.event("frozen witness of the known smoothing finding applied")
+    rec.event("frozen witness of the smoothing defect D18 applied")
     try:
         idnt.apply_preprocessing(copy.deepcopy(info["steps"]),
                                  copy.deepcopy(info["options"]))
@@ -447,8 +447,7 @@ def known_witness(rec):
         else:
             raise
     else:
-        rec.event("frozen witness of the known smoothing finding no longer "
-                  "fails")
+        rec.event("frozen witness of the smoothing defect D18 passes")
 
 
 def run_shard(rec, tier, seed, shard, nshards):
